@@ -29,6 +29,7 @@ var (
 type Options struct {
 	NoNonByteArrays bool // leave [N]T (T≠byte) out (C02/C03 use this to get past the known array defect)
 	NoZeroWidth     bool // no empty structs / [0]byte (sequences of zero-width elements are outside C02/C03)
+	SafeAlloc       bool // strings and byte slices get at most a uint16 prefix (decoders allocate the denoted length up front)
 	MaxDepth        int  // default 4
 }
 
@@ -347,11 +348,15 @@ func (g *dynGen) iface() *Shape {
 // inside a struct field, optional tag overrides. Precedence modelled: tag > registry.
 func (g *dynGen) settle(s *Shape, inField bool, sliceRules bool) string {
 	r := g.rng
+	lp := g.lp
+	if g.o.SafeAlloc && (s.Kind == String || s.Kind == Bytes) {
+		lp = func() uint8 { return []uint8{1, 1, 2}[r.Intn(3)] }
+	}
 	e, ok := g.u.reg[s.T]
 	first := !g.seen[s.T]
 	g.seen[s.T] = true
 	if !ok && (!inField || r.Intn(3) == 0) {
-		e = &regEntry{lp: g.lp()}
+		e = &regEntry{lp: lp()}
 		if first && r.Intn(3) == 0 {
 			e.r.Min, e.r.Max = g.bounds()
 		}
@@ -388,7 +393,7 @@ func (g *dynGen) settle(s *Shape, inField bool, sliceRules bool) string {
 	}
 	if inField {
 		if !ok || r.Intn(4) == 0 {
-			s.LP, s.TagLP = g.lp(), true
+			s.LP, s.TagLP = lp(), true
 			tag += ",lenPrefix=" + lpName(s.LP)
 		}
 		if (!ok || e.r.zero()) && r.Intn(3) == 0 {
